@@ -36,6 +36,9 @@
 EXTENDS Integers, Sequences, FiniteSets, TLC
 
 CONSTANTS NInc, MaxNotify, MaxDeliver, WindowFix, GuardFix, CleanupFix,
+          MaxBatch,   \* task batches handed to receivers (0: none - the instances of the first version of this module)
+          RetryEnds,  \* the code: TRUE. the receiver's routing retry loop (no delivery channel and no remote owner for the target
+                      \* shard: its sender is between incarnations) looks at its shutdown handle every round
           SerialReg   \* TRUE: a stream of a shard is opened only after its predecessor finished registering
                       \* (factors out the known findings C08-d / C08-e: concurrent registration)
 Inc == 1..NInc
@@ -52,16 +55,19 @@ VARIABLES
   lk,               \* k -> channel looked up by sender k's notification path
   npc, ntarget, ncount,           \* Notifier
   dpc, dtarget, dcount,           \* Deliverer
+  rb,               \* k -> "retry": receiver k holds a task batch for the target shard and is in the routing retry loop
+  bcount,
   crashed,          \* a send hit a closed channel outside a recover guard (process crash)
   stole             \* a cleanup step removed an entry that names another, live incarnation
 vars == <<pcS, pcR, localShard, sendReg, chanOpen, ended, ackReg, cancelReg, activeReg, cancelled, lk,
-          npc, ntarget, ncount, dpc, dtarget, dcount, crashed, stole>>
+          npc, ntarget, ncount, dpc, dtarget, dcount, crashed, stole, rb, bcount>>
 
 Init == /\ pcS = [k \in Inc |-> "init"] /\ pcR = [k \in Inc |-> "init"]
         /\ localShard = None /\ sendReg = None /\ chanOpen = [k \in Inc |-> FALSE] /\ ended = [k \in Inc |-> FALSE]
         /\ ackReg = None /\ cancelReg = None /\ activeReg = None /\ cancelled = [k \in Inc |-> FALSE]
         /\ lk = [k \in Inc |-> None] /\ npc = "idle" /\ ntarget = None /\ ncount = 0
         /\ dpc = "idle" /\ dtarget = None /\ dcount = 0 /\ crashed = FALSE /\ stole = FALSE
+        /\ rb = [k \in Inc |-> "none"] /\ bcount = 0
 
 (* ---------------- sender incarnation k ------------------------------------ *)
 \* streams of one shard are opened one after the other
@@ -70,45 +76,54 @@ Started(pc, k) == IF k = 1 THEN TRUE
 \* a stream for the shard is re-established while the previous incarnation is (at least) shutting down
 SSet(k) == /\ pcS[k] = "init" /\ Started(pcS, k) /\ (k > 1 => ended[k - 1])
            /\ sendReg' = k /\ chanOpen' = [chanOpen EXCEPT ![k] = TRUE] /\ pcS' = [pcS EXCEPT ![k] = "add"]
-           /\ UNCHANGED <<ended, pcR, localShard, ackReg, cancelReg, activeReg, cancelled, lk, npc, ntarget, ncount, dpc, dtarget, dcount, crashed, stole>>
+           /\ UNCHANGED <<ended, pcR, localShard, ackReg, cancelReg, activeReg, cancelled, lk, npc, ntarget, ncount, dpc, dtarget, dcount, crashed, stole, rb, bcount>>
 SAdd(k) == /\ pcS[k] = "add" /\ localShard' = k       \* unconditional overwrite, Created = now
            /\ pcS' = [pcS EXCEPT ![k] = IF activeReg # None THEN "nlookup" ELSE "running"]
-           /\ UNCHANGED <<ended, pcR, sendReg, chanOpen, ackReg, cancelReg, activeReg, cancelled, lk, npc, ntarget, ncount, dpc, dtarget, dcount, crashed, stole>>
+           /\ UNCHANGED <<ended, pcR, sendReg, chanOpen, ackReg, cancelReg, activeReg, cancelled, lk, npc, ntarget, ncount, dpc, dtarget, dcount, crashed, stole, rb, bcount>>
 SNLookup(k) == /\ pcS[k] = "nlookup" /\ lk' = [lk EXCEPT ![k] = sendReg]
                /\ pcS' = [pcS EXCEPT ![k] = IF sendReg = None THEN "running" ELSE "nsend"]
-               /\ UNCHANGED <<ended, pcR, localShard, sendReg, chanOpen, ackReg, cancelReg, activeReg, cancelled, npc, ntarget, ncount, dpc, dtarget, dcount, crashed, stole>>
+               /\ UNCHANGED <<ended, pcR, localShard, sendReg, chanOpen, ackReg, cancelReg, activeReg, cancelled, npc, ntarget, ncount, dpc, dtarget, dcount, crashed, stole, rb, bcount>>
 SNSend(k) == /\ pcS[k] = "nsend" /\ crashed' = (crashed \/ (~GuardFix /\ ~chanOpen[lk[k]]))
              /\ pcS' = [pcS EXCEPT ![k] = "running"]
-             /\ UNCHANGED <<ended, pcR, localShard, sendReg, chanOpen, ackReg, cancelReg, activeReg, cancelled, lk, npc, ntarget, ncount, dpc, dtarget, dcount, stole>>
+             /\ UNCHANGED <<ended, pcR, localShard, sendReg, chanOpen, ackReg, cancelReg, activeReg, cancelled, lk, npc, ntarget, ncount, dpc, dtarget, dcount, stole, rb, bcount>>
 \* environment: the stream of incarnation k ends (Recv/Send fail); Run notices once it is in its main wait
 EndS(k) == /\ pcS[k] \notin {"init", "done"} /\ ~ended[k] /\ ended' = [ended EXCEPT ![k] = TRUE]
-           /\ UNCHANGED <<pcS, pcR, localShard, sendReg, chanOpen, ackReg, cancelReg, activeReg, cancelled, lk, npc, ntarget, ncount, dpc, dtarget, dcount, crashed, stole>>
+           /\ UNCHANGED <<pcS, pcR, localShard, sendReg, chanOpen, ackReg, cancelReg, activeReg, cancelled, lk, npc, ntarget, ncount, dpc, dtarget, dcount, crashed, stole, rb, bcount>>
 SClose(k) == /\ pcS[k] = "running" /\ ended[k] /\ chanOpen' = [chanOpen EXCEPT ![k] = FALSE] /\ pcS' = [pcS EXCEPT ![k] = "unreg"]
-             /\ UNCHANGED <<ended, pcR, localShard, sendReg, ackReg, cancelReg, activeReg, cancelled, lk, npc, ntarget, ncount, dpc, dtarget, dcount, crashed, stole>>
+             /\ UNCHANGED <<ended, pcR, localShard, sendReg, ackReg, cancelReg, activeReg, cancelled, lk, npc, ntarget, ncount, dpc, dtarget, dcount, crashed, stole, rb, bcount>>
 SUnreg(k) == /\ pcS[k] = "unreg"
              /\ IF localShard = k THEN localShard' = None /\ pcS' = [pcS EXCEPT ![k] = IF WindowFix THEN "rmchan" ELSE "window"]
                                   ELSE localShard' = localShard /\ pcS' = [pcS EXCEPT ![k] = "rmchan"]
-             /\ UNCHANGED <<ended, pcR, sendReg, chanOpen, ackReg, cancelReg, activeReg, cancelled, lk, npc, ntarget, ncount, dpc, dtarget, dcount, crashed, stole>>
+             /\ UNCHANGED <<ended, pcR, sendReg, chanOpen, ackReg, cancelReg, activeReg, cancelled, lk, npc, ntarget, ncount, dpc, dtarget, dcount, crashed, stole, rb, bcount>>
 SUnreg2(k) == /\ pcS[k] = "window" /\ stole' = (stole \/ (localShard # None /\ localShard # k)) /\ localShard' = None
               /\ pcS' = [pcS EXCEPT ![k] = "rmchan"]
-              /\ UNCHANGED <<ended, pcR, sendReg, chanOpen, ackReg, cancelReg, activeReg, cancelled, lk, npc, ntarget, ncount, dpc, dtarget, dcount, crashed>>
+              /\ UNCHANGED <<ended, pcR, sendReg, chanOpen, ackReg, cancelReg, activeReg, cancelled, lk, npc, ntarget, ncount, dpc, dtarget, dcount, crashed, rb, bcount>>
 SRmChan(k) == /\ pcS[k] = "rmchan" /\ sendReg' = (IF sendReg = k THEN None ELSE sendReg) /\ pcS' = [pcS EXCEPT ![k] = "done"]
-              /\ UNCHANGED <<ended, pcR, localShard, chanOpen, ackReg, cancelReg, activeReg, cancelled, lk, npc, ntarget, ncount, dpc, dtarget, dcount, crashed, stole>>
+              /\ UNCHANGED <<ended, pcR, localShard, chanOpen, ackReg, cancelReg, activeReg, cancelled, lk, npc, ntarget, ncount, dpc, dtarget, dcount, crashed, stole, rb, bcount>>
 
 (* ---------------- receiver incarnation k ---------------------------------- *)
 RTerm(k) == /\ pcR[k] = "init" /\ Started(pcR, k)
             /\ IF cancelReg # None
                  THEN cancelled' = [cancelled EXCEPT ![cancelReg] = TRUE] /\ cancelReg' = None /\ ackReg' = None
-                 ELSE UNCHANGED <<ended, cancelled, cancelReg, ackReg>>
+                 ELSE UNCHANGED <<ended, cancelled, cancelReg, ackReg, rb, bcount>>
             /\ pcR' = [pcR EXCEPT ![k] = "setack"]
-            /\ UNCHANGED <<ended, pcS, localShard, sendReg, chanOpen, activeReg, lk, npc, ntarget, ncount, dpc, dtarget, dcount, crashed, stole>>
+            /\ UNCHANGED <<ended, pcS, localShard, sendReg, chanOpen, activeReg, lk, npc, ntarget, ncount, dpc, dtarget, dcount, crashed, stole, rb, bcount>>
 RSetAck(k) == /\ pcR[k] = "setack" /\ ackReg' = k /\ pcR' = [pcR EXCEPT ![k] = "setrest"]
-              /\ UNCHANGED <<ended, pcS, localShard, sendReg, chanOpen, cancelReg, activeReg, cancelled, lk, npc, ntarget, ncount, dpc, dtarget, dcount, crashed, stole>>
+              /\ UNCHANGED <<ended, pcS, localShard, sendReg, chanOpen, cancelReg, activeReg, cancelled, lk, npc, ntarget, ncount, dpc, dtarget, dcount, crashed, stole, rb, bcount>>
 RSetRest(k) == /\ pcR[k] = "setrest" /\ cancelReg' = k /\ activeReg' = k /\ pcR' = [pcR EXCEPT ![k] = "running"]
-               /\ UNCHANGED <<ended, pcS, localShard, sendReg, chanOpen, ackReg, cancelled, lk, npc, ntarget, ncount, dpc, dtarget, dcount, crashed, stole>>
+               /\ UNCHANGED <<ended, pcS, localShard, sendReg, chanOpen, ackReg, cancelled, lk, npc, ntarget, ncount, dpc, dtarget, dcount, crashed, stole, rb, bcount>>
 \* the loops end: cancelled by a successor, or the stream was ended from outside
 RExit(k) == /\ pcR[k] = "running" /\ pcR' = [pcR EXCEPT ![k] = "cleanup"]
-            /\ UNCHANGED <<ended, pcS, localShard, sendReg, chanOpen, ackReg, cancelReg, activeReg, cancelled, lk, npc, ntarget, ncount, dpc, dtarget, dcount, crashed, stole>>
+            /\ (RetryEnds \/ rb[k] # "retry") /\ rb' = [rb EXCEPT ![k] = "none"]      \* a batch held at shutdown is dropped
+            /\ UNCHANGED <<ended, pcS, localShard, sendReg, chanOpen, ackReg, cancelReg, activeReg, cancelled, lk, npc, ntarget, ncount, dpc, dtarget, dcount, crashed, stole, bcount>>
+\* a task batch for the target shard arrives on receiver k's stream (recvReplicationMessages): handed to the registered delivery
+\* channel, or - none registered / it is closed (recovered), and no remote owner - the retry loop with back-off
+CanDeliver == sendReg # None /\ chanOpen[sendReg]
+RBatch(k) == /\ pcR[k] = "running" /\ rb[k] = "none" /\ bcount < MaxBatch /\ bcount' = bcount + 1
+             /\ rb' = IF CanDeliver THEN rb ELSE [rb EXCEPT ![k] = "retry"]
+             /\ UNCHANGED <<ended, pcS, pcR, localShard, sendReg, chanOpen, ackReg, cancelReg, activeReg, cancelled, lk, npc, ntarget, ncount, dpc, dtarget, dcount, crashed, stole>>
+RRetry(k) == /\ pcR[k] = "running" /\ rb[k] = "retry" /\ CanDeliver /\ rb' = [rb EXCEPT ![k] = "none"]
+             /\ UNCHANGED <<ended, pcS, pcR, localShard, sendReg, chanOpen, ackReg, cancelReg, activeReg, cancelled, lk, npc, ntarget, ncount, dpc, dtarget, dcount, crashed, stole, bcount>>
 Live(j) == pcR[j] \in {"setrest", "running"}
 RCleanup(k) ==
   /\ pcR[k] = "cleanup"
@@ -117,23 +132,23 @@ RCleanup(k) ==
   /\ activeReg' = (IF CleanupFix /\ activeReg # k THEN activeReg ELSE None)
   /\ stole' = (stole \/ (~CleanupFix /\ ((cancelReg \notin {None, k} /\ Live(cancelReg)) \/ (activeReg \notin {None, k} /\ Live(activeReg)))))
   /\ pcR' = [pcR EXCEPT ![k] = "done"]
-  /\ UNCHANGED <<ended, pcS, localShard, sendReg, chanOpen, cancelled, lk, npc, ntarget, ncount, dpc, dtarget, dcount, crashed>>
+  /\ UNCHANGED <<ended, pcS, localShard, sendReg, chanOpen, cancelled, lk, npc, ntarget, ncount, dpc, dtarget, dcount, crashed, rb, bcount>>
 
 (* ---------------- Notifier: remote register announcement for the target shard (old timestamp: no eviction) --- *)
 NLookup == /\ npc = "idle" /\ ncount < MaxNotify /\ activeReg # None
            /\ ntarget' = sendReg /\ npc' = (IF sendReg = None THEN "idle" ELSE "send") /\ ncount' = ncount + 1
-           /\ UNCHANGED <<ended, pcS, pcR, localShard, sendReg, chanOpen, ackReg, cancelReg, activeReg, cancelled, lk, dpc, dtarget, dcount, crashed, stole>>
+           /\ UNCHANGED <<ended, pcS, pcR, localShard, sendReg, chanOpen, ackReg, cancelReg, activeReg, cancelled, lk, dpc, dtarget, dcount, crashed, stole, rb, bcount>>
 NSend == /\ npc = "send" /\ crashed' = (crashed \/ (~GuardFix /\ ~chanOpen[ntarget])) /\ npc' = "idle"
-         /\ UNCHANGED <<ended, pcS, pcR, localShard, sendReg, chanOpen, ackReg, cancelReg, activeReg, cancelled, lk, ntarget, ncount, dpc, dtarget, dcount, stole>>
+         /\ UNCHANGED <<ended, pcS, pcR, localShard, sendReg, chanOpen, ackReg, cancelReg, activeReg, cancelled, lk, ntarget, ncount, dpc, dtarget, dcount, stole, rb, bcount>>
 (* ---------------- Deliverer: DeliverMessagesToShardOwner (send guarded by recover) --------------------------- *)
 DLookup == /\ dpc = "idle" /\ dcount < MaxDeliver
            /\ dtarget' = sendReg /\ dpc' = (IF sendReg = None THEN "idle" ELSE "send") /\ dcount' = dcount + 1
-           /\ UNCHANGED <<ended, pcS, pcR, localShard, sendReg, chanOpen, ackReg, cancelReg, activeReg, cancelled, lk, npc, ntarget, ncount, crashed, stole>>
+           /\ UNCHANGED <<ended, pcS, pcR, localShard, sendReg, chanOpen, ackReg, cancelReg, activeReg, cancelled, lk, npc, ntarget, ncount, crashed, stole, rb, bcount>>
 DSend == /\ dpc = "send" /\ dpc' = "idle"     \* closed channel: the panic is recovered, the call returns false
-         /\ UNCHANGED <<ended, pcS, pcR, localShard, sendReg, chanOpen, ackReg, cancelReg, activeReg, cancelled, lk, npc, ntarget, ncount, dtarget, dcount, crashed, stole>>
+         /\ UNCHANGED <<ended, pcS, pcR, localShard, sendReg, chanOpen, ackReg, cancelReg, activeReg, cancelled, lk, npc, ntarget, ncount, dtarget, dcount, crashed, stole, rb, bcount>>
 
 SenderStep(k) == SSet(k) \/ EndS(k) \/ SAdd(k) \/ SNLookup(k) \/ SNSend(k) \/ SClose(k) \/ SUnreg(k) \/ SUnreg2(k) \/ SRmChan(k)
-ReceiverStep(k) == RTerm(k) \/ RSetAck(k) \/ RSetRest(k) \/ RExit(k) \/ RCleanup(k)
+ReceiverStep(k) == RTerm(k) \/ RSetAck(k) \/ RSetRest(k) \/ RExit(k) \/ RCleanup(k) \/ RBatch(k) \/ RRetry(k)
 Next == (\E k \in Inc : SenderStep(k) \/ ReceiverStep(k)) \/ NLookup \/ NSend \/ DLookup \/ DSend
 Spec == Init /\ [][Next]_vars
 
@@ -143,6 +158,8 @@ LiveS == {k \in Inc : pcS[k] = "running" /\ ~ended[k]}
 LiveR == {k \in Inc : pcR[k] = "running" /\ ~cancelled[k]}
 MaxOf(S) == CHOOSE x \in S : \A y \in S : y <= x
 NoCrash == ~crashed
+\* a receiver whose stream ends can always leave its loops - also out of the routing retry loop ("no stuck worker")
+RetryCanEnd == \A k \in Inc : pcR[k] = "running" => ENABLED RExit(k)
 OwnCleanupOnly == ~stole
 NewestSender == (Settled /\ LiveS # {}) => (localShard = MaxOf(LiveS) /\ sendReg = MaxOf(LiveS))
 NewestReceiver == (Settled /\ LiveR # {}) => (ackReg = MaxOf(LiveR) /\ cancelReg = MaxOf(LiveR) /\ activeReg = MaxOf(LiveR))
